@@ -320,6 +320,15 @@ def exhaustive_items(maxn):
                         for flags in ((False, True, True), (True, True, True), (False, False, False)):
                             items.append({"n": n, "idx": idx, "rooted": rooted, "op": op, "target": tg,
                                           "ub": flags[0], "su": flags[1], "cb": flags[2]})
+    # midpoint rooting of every small shape under length assignments in tenths (sums along different paths coincide
+    # only up to rounding), from a fresh tree and from one that was midpoint-rooted before and then re-declared
+    for n in range(3, maxn + 1):
+        for idx, spec in enumerate(all_rooted_trees(range(n))):
+            for lens in range(4):
+                for rooted in (True, False, None):
+                    for pre in (False, True):
+                        items.append({"n": n, "idx": idx, "rooted": rooted, "op": "reroot_at_midpoint", "target": 0, "ub": bool(lens % 2),
+                                      "su": True, "cb": False, "tenths": lens, "pre_mid": pre})
     return items
 
 
@@ -331,11 +340,17 @@ def check_exh(ctx, item):
     if n not in _TREES:
         _TREES[n] = list(all_rooted_trees(range(n)))
     spec = shapes.copy_spec(_TREES[n][item["idx"]])
+    TENTHS = ([0.1, 0.2, 0.3, 0.1, 0.2, 0.7], [0.3, 0.1, 0.2, 0.4, 0.1], [0.05, 0.15, 0.1, 0.3, 0.25, 0.2, 0.1], [0.7, 0.1, 0.2, 0.3])
     for k, s in enumerate(shapes.spec_nodes(spec)):
         if k:
-            s["len"] = 1.0
-    case = {"spec": spec, "lenpat": "unit", "rooted": item["rooted"], "op": item["op"], "target": item["target"],
-            "frac": 4, "ub": item["ub"], "su": item["su"], "cb": item["cb"], "asc": True, "seed": 0, "encode_first": False}
+            if "tenths" in item:
+                seq = TENTHS[item["tenths"]]
+                s["len"] = seq[(k + item["idx"]) % len(seq)]
+            else:
+                s["len"] = 1.0
+    case = {"spec": spec, "lenpat": "decimal" if "tenths" in item else "unit", "rooted": item["rooted"], "op": item["op"], "target": item["target"],
+            "frac": 4, "ub": item["ub"], "su": item["su"], "cb": item["cb"], "asc": True, "seed": 0, "encode_first": False,
+            "pre_mid": bool(item.get("pre_mid"))}
     check_case(ctx, case)
 
 
